@@ -126,6 +126,10 @@ type Sim struct {
 	SchedHash uint64
 	Heartbeat *atomic.Int64
 
+	// OnPark, if set, is called by the controller once for every park of a
+	// goroutine (all goroutines quiescent), before it can be released: the
+	// place to inspect "the state if the process were killed here".
+	OnPark func(g *G)
 	// OnStep, if set, is called by the controller after every step while all
 	// goroutines are quiescent (invariant checks). A non-empty return aborts.
 	OnStep func(site string) string
@@ -493,6 +497,7 @@ func fnv(h uint64, s string) uint64 {
 func (s *Sim) Loop(maxFake time.Duration) {
 	var infos []CandInfo
 	var cands []cand
+	var parkedNow []*G
 	for {
 		synctest.Wait()
 		if s.Heartbeat != nil {
@@ -517,10 +522,14 @@ func (s *Sim) Loop(maxFake time.Duration) {
 				nextDue = t
 			}
 		}
+		parkedNow = parkedNow[:0]
 		s.mu.Lock()
 		for _, g := range s.parked {
 			if !g.stallChecked {
 				g.stallChecked = true
+				if s.OnPark != nil {
+					parkedNow = append(parkedNow, g)
+				}
 				var hold time.Duration
 				for _, r := range s.Stalls {
 					d := r.Match(g.site, r.hits, g)
@@ -558,6 +567,13 @@ func (s *Sim) Loop(maxFake time.Duration) {
 			cands = append(cands, cand{p: p, seq: p.seq})
 		}
 		s.mu.Unlock()
+		if s.OnPark != nil && len(parkedNow) > 0 {
+			// newly parked goroutines, in deterministic order; the hook may kill nodes
+			sort.Slice(parkedNow, func(i, j int) bool { return keyLess(parkedNow[i].Key, parkedNow[j].Key) })
+			for _, g := range parkedNow {
+				s.OnPark(g)
+			}
+		}
 
 		if len(cands) == 0 {
 			// nothing runnable: let fake time advance to the next timer
